@@ -70,8 +70,11 @@ REQUIRED_LABELS = {
               "act:configured", "act:untouched", "transfer", "no_transfer",
               "hidden_by_name_entry", "checked_ok"],
 }
+REQUIRED_LABELS["quick"] += ["sel:QGRU", "sel:QBidirectional:QGRU",
+                             "src:LeakyReLU->QActivation",
+                             "lstm_no_unit_forget_bias", "rnn_no_recurrent_q"]
 REQUIRED_LABELS["thorough"] = REQUIRED_LABELS["quick"] + [
-    "sel:QGRU", "unsel:LSTM", "unsel:Bidirectional", "two_outputs"]
+    "unsel:LSTM", "unsel:Bidirectional", "two_outputs"]
 
 QUANT_KEY_SUFFIX = ("_quantizer", "_constraint", "_initializer", "_range",
                     "_regularizer")
@@ -284,6 +287,15 @@ def oracle(ctx, case, origin="hyp"):
         labels.append("act:" + a[0])
       if REF.contested(ld, qd):
         labels.append("name_over_class")
+      if ld["cls"] == "LeakyReLU":
+        labels.append("src:LeakyReLU->QActivation")
+      pr = p.get("inner", p)
+      if "recurrent_quantizer" in pr["roles"] and not pr["roles"][
+          "recurrent_quantizer"]:
+        labels.append("rnn_no_recurrent_q")
+      ikw = ld["kw"]["layer"]["kw"] if ld["cls"] == "Bidirectional" else ld["kw"]
+      if pr["cls"] == "QLSTM" and ikw.get("unit_forget_bias") is False:
+        labels.append("lstm_no_unit_forget_bias")
     else:
       n_unsel += 1
       labels.append("unsel:" + ld["cls"])
@@ -563,9 +575,19 @@ def _templates():
   add(seq, "SeparableConv1D", {"filters": 3, "kernel_size": [2]}, "Flatten")
   add(seq, "SimpleRNN", {"units": 2, "activation": "relu"}, "Dense")
   add(seq, "LSTM", {"units": 2}, "Dense")
-  add(seq, "GRU", {"units": 2, "reset_after": False}, "Dense")
+  add(seq, "LSTM", {"units": 3, "unit_forget_bias": False}, "Dense")
+  # input width (2) != units, so a wrong recurrent matrix cannot go unnoticed
+  add(seq, "GRU", {"units": 3, "reset_after": False}, "Dense")
   add(seq, "Bidirectional", {"layer": {"name": "inner", "cls": "LSTM",
                                        "kw": {"units": 2}}}, "Dense")
+  add(seq, "Bidirectional", {"layer": {"name": "inner", "cls": "GRU",
+                                       "kw": {"units": 3, "reset_after": False,
+                                              "return_sequences": True}},
+                             "merge_mode": "sum"}, "Flatten")
+  add(seq, "Bidirectional", {"layer": {"name": "inner", "cls": "LSTM",
+                                       "kw": {"units": 1,
+                                              "unit_forget_bias": False}}},
+      "Dense")
   add(vec, "Dense", {"units": 3, "activation": "relu"}, "Dense")
   add(vec, "Dense", {"units": 3, "activation": "softmax"}, "Dense")
   return t
@@ -598,8 +620,8 @@ _B = {"kernel_quantizer": "ternary", "depthwise_quantizer": "binary",
 
 
 _RNN = ("SimpleRNN", "LSTM", "GRU", "Bidirectional")
-_MODE_PRIO = {"class": 0, "none": 1, "both": 2, "hidden": 3, "name": 4,
-              "with_act": 5}
+_MODE_PRIO = {"class": 0, "none": 1, "primary_only": 1, "both": 2, "hidden": 3,
+              "name": 4, "with_act": 5}
 
 
 def _dag_cases():
@@ -648,6 +670,9 @@ def lattice(quick=False):
         "Conv2D", "DepthwiseConv2D", "SeparableConv2D", "Conv1D",
         "SeparableConv1D", "SimpleRNN", "LSTM", "GRU", "Dense",
         "Bidirectional") else [None]
+    if "unit_forget_bias" in json.dumps(kw) or (
+        cls == "Bidirectional" and kw["layer"]["cls"] == "GRU"):
+      biases = [True]             # extra recurrent templates: no bias variants
     for ub in biases:
       kw2 = copy.deepcopy(kw)
       if ub is False:
@@ -665,8 +690,11 @@ def lattice(quick=False):
         if api == "sequential":
           desc["seq_input"] = "kw"
         variant = ub is False or api == "sequential"
-        for mode in ("none", "class", "name", "both", "hidden", "with_act"):
+        for mode in ("none", "class", "primary_only", "name", "both", "hidden",
+                     "with_act"):
           if quick and mode != "class" and variant:
+            continue
+          if mode == "primary_only" and (variant or cls not in _RNN):
             continue
           if quick and cls in _RNN and (
               mode in ("hidden", "name", "with_act") or
@@ -720,6 +748,8 @@ def _lattice_dict(ld, mode, adaptive=False):
   full_b = {r: _B[r] for r in prim + no_act}
   if mode == "none":
     return dict(other)
+  if mode == "primary_only":      # e.g. kernel_quantizer and nothing else
+    return {qk: {r: _A[r] for r in prim}}
   if mode == "class":
     return {qk: full_a}
   if mode == "name":
